@@ -54,6 +54,10 @@ def eval_percons(case):
     from bycycle.features.burst import compute_period_consistency
     P = [int(v) for v in case]
     df = pd.DataFrame({'period': P})
+    if sum(P) % 3 == 1:
+        df['period'] = df['period'].astype('uint16')      # compactly stored table (pd.to_numeric(downcast='unsigned'))
+    elif sum(P) % 3 == 2:
+        df['period'] = df['period'].astype('uint8')
     outs, nev = [], 0
     for direction in DIRS:
         exp = ref_period_consistency(P, direction)
@@ -73,8 +77,29 @@ def eval_ampfrac(case):
     from bycycle.features.burst import compute_amp_fraction
     V = [float(v) for v in case]
     df = pd.DataFrame({'volt_amp': V})
+    ik = int(sum(v for v in V if v == v)) % 3
+    if ik == 1:
+        df.index = range(3, 3 + len(V))            # a slice of a longer table
+    elif ik == 2:
+        df.index = [i % 2 for i in range(len(V))]   # concatenated tables
     exp = ref_amp_fraction(V)
     got = np.asarray(compute_amp_fraction(df), dtype=float)
+    if len(V) >= 1:
+        # through compute_burst_features too (row labels must not matter)
+        from bycycle.features.burst import compute_burst_features
+        n = len(V)
+        full = df.copy()
+        full['volt_rise'] = 1.
+        full['volt_decay'] = 1.
+        full['period'] = 4
+        full['sample_peak'] = [4 * i + 2 for i in range(n)]
+        full['sample_last_trough'] = [4 * i for i in range(n)]
+        full['sample_next_trough'] = [4 * i + 4 for i in range(n)]
+        bf = compute_burst_features(full, np.zeros(4 * n + 5))
+        if not same_values(bf['amp_fraction'].to_numpy(), exp):
+            return VIOL({'kind': 'amp_fraction', 'via': 'compute_burst_features', 'index': ('default', 'offset', 'duplicate')[ik]},
+                        'amp_fraction from compute_burst_features is not average-rank / n (row labels: %s)' % ('default', 'offset', 'duplicate')[ik],
+                        expected=exp, observed={'got': bf['amp_fraction'].tolist(), 'volt_amp': V})
     if not same_values(got, exp):
         return VIOL({'kind': 'amp_fraction'}, 'amp_fraction is not average-rank / n', expected=exp,
                     observed={'got': got.tolist(), 'volt_amp': V})
